@@ -165,6 +165,9 @@ func libLock(x *Exec, fr *Frame, st *State, fn *ssa.Function, args []Val, in ssa
 		x.note("lock on unsupported mutex location ignored")
 		return nil
 	}
+	if fn.Name() == "RLock" {
+		k = strings.Replace(k, "ghost:held:", "ghost:rheld:", 1)
+	}
 	h := st.H(k, arraySort(sortInt, sortBool))
 	if x.checkLocks() {
 		x.assert(st, "lock", "not already held: "+x.src(in), mkNot(mkSelect(h, ref)), in.Pos(), nil)
@@ -266,6 +269,9 @@ func libUnlock(x *Exec, fr *Frame, st *State, fn *ssa.Function, args []Val, in s
 	k, ref := x.lockKey(p)
 	if k == "" {
 		return nil
+	}
+	if fn.Name() == "RUnlock" {
+		k = strings.Replace(k, "ghost:held:", "ghost:rheld:", 1)
 	}
 	h := st.H(k, arraySort(sortInt, sortBool))
 	if x.checkLocks() {
